@@ -302,6 +302,66 @@ func (p *pkg) credOrigin(fd *ast.FuncDecl, e ast.Expr, depth int) string {
 	return unknown
 }
 
+// credStoredKey describes, for every `Signer{key: X}` literal in signer.New,
+// what X is: "param key" (the caller's slice itself), "copy-of-param key"
+// (append to an empty slice), "make(<len>)+copy" (a buffer of that length
+// filled by copy), "random" (rand.Bytes under the nil guard), else Unknown.
+func (p *pkg) credStoredKey(fd *ast.FuncDecl) []string {
+	var out []string
+	ast.Inspect(fd.Body, func(n ast.Node) bool {
+		cl, ok := n.(*ast.CompositeLit)
+		if !ok || typeName(cl.Type) != "Signer" {
+			return true
+		}
+		for _, el := range cl.Elts {
+			kv, ok := el.(*ast.KeyValueExpr)
+			if !ok {
+				out = append(out, "Unknown "+p.src(el))
+				continue
+			}
+			if id, ok := kv.Key.(*ast.Ident); !ok || id.Name != "key" {
+				continue
+			}
+			out = append(out, p.credKeyExpr(fd, kv.Value))
+		}
+		return true
+	})
+	if len(out) == 0 {
+		out = append(out, "Unknown no Signer literal")
+	}
+	return out
+}
+
+func (p *pkg) credKeyExpr(fd *ast.FuncDecl, e ast.Expr) string {
+	switch x := e.(type) {
+	case *ast.Ident:
+		if credParam(fd, x.Name) {
+			return "param " + x.Name
+		}
+		rhs, _, n := credLocalDef(fd, x.Name)
+		if n == 1 && rhs != nil {
+			if c, ok := rhs.(*ast.CallExpr); ok {
+				if id, ok := c.Fun.(*ast.Ident); ok && id.Name == "make" && len(c.Args) >= 2 {
+					return "make(" + p.src(c.Args[1]) + ")+copy"
+				}
+			}
+			return p.credKeyExpr(fd, rhs)
+		}
+	case *ast.CallExpr:
+		if id, ok := x.Fun.(*ast.Ident); ok && id.Name == "append" && len(x.Args) == 2 && x.Ellipsis.IsValid() {
+			if o := p.credOrigin(fd, x.Args[0], 0); o == "fresh" || o == "nil" {
+				if a, ok := x.Args[1].(*ast.Ident); ok && credParam(fd, a.Name) {
+					return "copy-of-param " + a.Name
+				}
+			}
+		}
+		if strings.HasPrefix(p.src(x), "rand.Bytes(") {
+			return "random"
+		}
+	}
+	return "Unknown " + p.src(e)
+}
+
 // credResultOrigins lists, for every return statement of fd (function
 // literals apart), the origin of result number idx.
 func (p *pkg) credResultOrigins(fd *ast.FuncDecl, idx int) []string {
@@ -580,6 +640,16 @@ func genCred(repo string) (string, error) {
 		}
 		fmt.Fprintf(&b, "(%s, [ %s ])", coqStr("signer."+f.recv+"."+f.name), strings.Join(items, "; "))
 	}
-	b.WriteString(" ].\n")
+	b.WriteString(" ].\n\n")
+	b.WriteString("(* What signer.New stores as the signer's key, for every Signer literal it builds. *)\n")
+	var sk []string
+	if fd := pkgs["signer"].funcDecl("", "New"); fd != nil && fd.Body != nil {
+		for _, o := range pkgs["signer"].credStoredKey(fd) {
+			sk = append(sk, coqStr(o))
+		}
+	} else {
+		sk = append(sk, coqStr("Unknown missing function"))
+	}
+	fmt.Fprintf(&b, "Definition gen_signer_stored_key : list string := [ %s ].\n", strings.Join(sk, "; "))
 	return b.String(), nil
 }
